@@ -439,6 +439,13 @@ def timedRounds {P : Proto} (alt : P.Alt) : Nat → World P → Option (World P)
     | none => none
     | some w1 => timedRounds alt k w1
 
+/-- both sides online; everything submitted has been handed over, nothing is unacknowledged or queued
+and no resend is requested -/
+def World.quiescent {P : Proto} (w : World P) : Prop :=
+  w.b.deliveredVital = w.a.submittedVital ∧ w.a.deliveredVital = w.b.submittedVital ∧
+  ∀ s, ∃ o, P.online (w.get s).conn = some o ∧ o.resendQueue = [] ∧ o.packet.chunks = [] ∧
+    o.requestResend = false
+
 /-! ## 0.6: an accepting side created by `Connection::new_accept_token`
 
 The handshake was answered by a stateless listener: the accepting connection object `b` starts
